@@ -346,8 +346,11 @@ def verify_clean(case, ctxt, X, start, eff, out, mask, rr, rd):
     O = sigfile.decode_samples(pf["data"], nbits, nch)
     keep = ~cm
     if not np.array_equal(O[:, keep].tobytes(), X[:, keep].tobytes()):
-        bad = np.argwhere(O[:, keep] != X[:, keep])[0]
-        raise Violation("clean:unmasked-sample-changed", f"{ctxt}: sample {int(bad[0])} of unmasked channel #{int(np.flatnonzero(keep)[bad[1]])} changed")
+        a, b = np.ascontiguousarray(O[:, keep]), np.ascontiguousarray(X[:, keep])
+        iv = {1: np.uint8, 2: np.uint16, 4: np.uint32}[a.dtype.itemsize]
+        bad = np.argwhere(a.view(iv) != b.astype(a.dtype).view(iv))[0]  # bit patterns (a -0.0 turned +0.0 counts)
+        raise Violation("clean:unmasked-sample-changed", f"{ctxt}: sample {int(bad[0])} of unmasked channel #{int(np.flatnonzero(keep)[bad[1]])} changed "
+                        f"({b[tuple(bad)]!r} -> {a[tuple(bad)]!r}, compared bit for bit)")
     if cm.any():
         vals = np.unique(O[:, cm])
         if vals.size != 1:
